@@ -82,7 +82,7 @@ pub fn run_tlc(ctx: &mut Ctx, spec: &str) -> Option<(DotGraph, u64)> {
     let dot = work.join("graph.dot");
     let out = Command::new("tlc")
         .current_dir(&src_dir)
-        .env_remove("JAVA_TOOL_OPTIONS")
+        .env("JAVA_TOOL_OPTIONS", "-Xmx1g")
         .args(["-dump", "dot,actionlabels"])
         .arg(&dot)
         .arg("-metadir")
